@@ -153,6 +153,19 @@ def _ev(fn_node: ast.AST, e: ast.AST, env: dict[str, object], depth: int, dsn_cl
 	if isinstance(e, ast.IfExp):
 		t = ev(e.test)
 		return UNKNOWN if t is UNKNOWN else ev(e.body if t else e.orelse)
+	if isinstance(e, ast.JoinedStr):
+		out = ''
+		for part in e.values:
+			if isinstance(part, ast.Constant):
+				out += str(part.value)
+			elif isinstance(part, ast.FormattedValue) and part.format_spec is None and part.conversion in (-1, 115):
+				v = ev(part.value)
+				if v is UNKNOWN or v is RAISES or not isinstance(v, (str, int)) or isinstance(v, bool):
+					return UNKNOWN
+				out += str(v)
+			else:
+				return UNKNOWN
+		return out
 	if isinstance(e, ast.UnaryOp) and isinstance(e.op, ast.Not):
 		v = ev(e.operand)
 		return UNKNOWN if v is UNKNOWN else (not v)
